@@ -156,6 +156,38 @@ def chessOp (args : List String) : String :=
       withSpec (boolStr (d.pos.isCheckMate d.turn))
         ((Spec.parseFen f).map fun g => boolStr (Spec.inCheck g.pos g.pos.turn && (Spec.legalMoves g.pos).isEmpty))
     | _ => "err"
+  | "playq" :: rest =>
+    -- play the moves without re-decoding in between, then ask the derived queries
+    let fenToks := rest.takeWhile (· ≠ ";")
+    let mvs := (rest.dropWhile (· ≠ ";")).drop 1
+    let f := joinSp fenToks
+    match Fen.decode f.toList with
+    | none => "err"
+    | some d =>
+      let fin := mvs.foldl (fun (acc : Option (Position × Color)) mv =>
+        match acc with
+        | none => none
+        | some (p, c) =>
+          match (p.pseudoLegalMoves c).find? (fun m => moveUci m == mv) with
+          | none => none
+          | some m => (p.move m).map fun p' => (p', c.opp)) (some (d.pos, d.turn))
+      let model := match fin with
+        | none => "stuck"
+        | some (p, c) =>
+          let att (by_ : Color) : Nat := (List.range 64).foldl (fun acc sq => if p.isAttacked by_.opp sq then acc ||| (1 <<< sq) else acc) 0
+          joinSp [posKey p c, hexStr (att .white), hexStr (att .black), boolStr (p.isChecked .white), boolStr (p.isChecked .black),
+            boolStr (p.isCheckMate c), if viewsOk p then "v" else "VIEWS-BROKEN"]
+      withSpec model ((Spec.parseFen f).map fun g =>
+        let fin := mvs.foldl (fun (acc : Option Spec.Pos) mv =>
+          match acc with
+          | none => none
+          | some p => ((Spec.legalMoves p).find? (fun m => Spec.moveName m == mv)).map (Spec.apply p)) (some g.pos)
+        match fin with
+        | none => "stuck"
+        | some p =>
+          let att (by_ : Spec.Color) : Nat := (List.range 64).foldl (fun acc sq => if Spec.attackedBy p by_ sq then acc ||| (1 <<< sq) else acc) 0
+          joinSp [Spec.printPosKey p, hexStr (att .white), hexStr (att .black), boolStr (Spec.inCheck p .white), boolStr (Spec.inCheck p .black),
+            boolStr (Spec.inCheck p p.turn && (Spec.legalMoves p).isEmpty), "v"])
   | _ => "bad-op"
 
 end Morlock.Driver
